@@ -229,7 +229,33 @@ def fam_slot_capacity_chain(n):
     return pt.Seq(*[v.store(pt.Int(i)) for i, v in enumerate(vs)], pt.Return(caller(pt.Int(3)) + tot == pt.Int(want))), 2
 
 
+def fam_after_router(k):
+    """a routine first compiled inside Router.compile_program (scratch convention; the Router rewinds the slot-id counter afterwards while
+    the routine keeps its slots), then called by an ordinary program that holds k fresh variables across the call: the variables may carry
+    the very ids of the routine's slots, they are different cells all the same"""
+    from pyteal import abi
+    hv = pt.ScratchVar(pt.TealType.uint64)
+
+    @pt.Subroutine(pt.TealType.uint64)
+    def bump(a):
+        return pt.Seq(hv.store(a + pt.Int(1)), hv.load() + a)
+    router = pt.Router("fam", pt.BareCallActions(no_op=pt.OnCompleteAction.create_only(pt.Approve())))
+
+    def m(a, *, output):
+        return output.set(bump(a.get()))
+    m.__annotations__ = {"a": abi.Uint64, "output": abi.Uint64, "return": pt.Expr}
+    router.add_method_handler(pt.ABIReturnSubroutine(m))
+    router.compile_program(version=7)
+    vs = [pt.ScratchVar(pt.TealType.uint64) for _ in range(k)]
+    ok = pt.Int(1)
+    for i, v in enumerate(vs):
+        ok = pt.And(ok, v.load() == pt.Int(100 + i))
+    # bump(5) = (5 + 1) + 5 = 11
+    return pt.Seq(*[v.store(pt.Int(100 + i)) for i, v in enumerate(vs)], pt.Assert(bump(pt.Int(5)) == pt.Int(11)), pt.Return(ok)), 6
+
+
 FAMILIES = {
+    "after_router": (fam_after_router, [1, 4, 8, 12]),
     "slot_capacity_chain": (fam_slot_capacity_chain, [3, 250, 251, 253, 254]),
     "abi_many_locals": (fam_abi_many_locals, [126, 127, 128, 130]),
     "explicit_return_abi_local": (fam_explicit_return_abi_local, [0, 3, 12]),
